@@ -62,7 +62,7 @@ class C15(PropertyCheck):
         cases = []
         names = packlib.safe_names()
         # ---- (a) serialize + round trip
-        nser = 500 if tier == "quick" else 6000
+        nser = 2000 if tier == "quick" else 40000
         fixed = [
             [],                                                     # the empty archive
             [(b"a", b"")],                                          # one empty file
@@ -83,7 +83,7 @@ class C15(PropertyCheck):
             files = packlib.rand_files(rng)
             cases.append(Case("packser " + packlib.files_tokens(files), "serialize"))
         # ---- (b) reference writer with layout knobs
-        nlay = 500 if tier == "quick" else 6000
+        nlay = 2000 if tier == "quick" else 40000
         for j in range(nlay):
             files = packlib.rand_files(rng, nmax=24)
             if j == 0:
@@ -184,10 +184,9 @@ class C15(PropertyCheck):
                 if len(b) > 0:
                     for nb in (b[:len(b) // 2], b[:-1]):
                         yield Case("packser " + packlib.files_tokens(files[:i] + [(n, nb)] + files[i + 1:]), case.stream)
-                if len(n) > 1:
-                    nn = n[:1]
-                    if all(nn != x for x, _ in files):
-                        yield Case("packser " + packlib.files_tokens(files[:i] + [(nn, b)] + files[i + 1:]), case.stream)
+                nn = b"n%d" % i          # a plain ASCII name (always representable)
+                if len(n) > len(nn) and all(nn != x for x, _ in files):
+                    yield Case("packser " + packlib.files_tokens(files[:i] + [(nn, b)] + files[i + 1:]), case.stream)
         elif toks[0] == "packparse":
             for c in packtotal.total_shrink(case):
                 yield c
